@@ -52,8 +52,18 @@ static std::string JsonEscape(const std::string& s)
 	return r;
 }
 
+static const Source* g_currentSource = nullptr;
+
 static void DumpStats()
 {
+	if (g_currentSource)
+	{
+		// how much of every lane the dying run had consumed (lets the minimiser cut the rest at once)
+		fprintf(stderr, "LANEPOS");
+		for (int l = 0; l < sim::L_COUNT; ++l) fprintf(stderr, " %s=%zu", sim::LaneNames[l], g_currentSource->pos[l]);
+		fprintf(stderr, "\n");
+		fflush(stderr);
+	}
 	if (g_statsDumped) return;
 	g_statsDumped = true;
 	std::string j = "{";
@@ -117,8 +127,10 @@ static int CmdRun(int argc, char** argv)
 		sim::set_run_label(label);
 		RunCtx ctx;
 		ctx.src.Seed(RunSeed(prop, seed, idx));
+		g_currentSource = &ctx.src;
 		sim::ev_reset(false);
 		Outcome o = fn(ctx);
+		g_currentSource = nullptr;
 		sim::steps_end();
 		ResetKnobs();
 		++g_evaluations;
@@ -168,9 +180,13 @@ static int Execute(const char* prop, RunCtx& ctx)
 	ScenarioFn fn = FindScenario(prop);
 	if (!fn) { fprintf(stderr, "unknown property %s\n", prop); return 2; }
 	sim::set_run_label(prop);
+	sim::set_stats_dump(DumpStats);
+	g_statsDumped = true;   // exec mode prints no STATS line
 	WarmUp();
 	sim::ev_reset(ctx.describe);
+	g_currentSource = &ctx.src;
 	Outcome o = fn(ctx);
+	g_currentSource = nullptr;
 	sim::steps_end();
 	printf("RESULT %s cls=%s hash=%016" PRIx64 " nontrivial=%d\n", o.violation ? "violation" : "ok", o.violation ? o.cls.c_str() : "-", sim::ev_hash(), o.nontrivial ? 1 : 0);
 	printf("TAGS %s\n", OneLine(o.tags).c_str());
